@@ -30,6 +30,33 @@ Theorem C01_sound : forall gas cfg strict nid d maxWidth F ns obj rel sub reques
   allowed_of (o_res o) = true -> Holds cfg nid d sub (ns, obj, rel).
 Proof. exact check_sound. Qed.
 
+(* EXACTNESS with rewrites (unions, intersections, traversals, this.permits; no '!'), non-strict mode, no storage faults:
+   a run in which no sub-check was cut by max-depth/max-width and no subject set was skipped as already visited
+   answers allowed EXACTLY when the subject is in the subject set.  (Runs that skipped a visited node are covered
+   for rewrite-free configurations by C01_plain_correct, and otherwise by the executable reference as an oracle.) *)
+Theorem C01_exact_clean : forall gas cfg nid d maxWidth ns obj rel sub request global o,
+  config_nf cfg = true ->
+  CheckRelationTuple gas cfg false nid d maxWidth (fun _ => false) ns obj rel sub request global = Some o ->
+  o_cut o = false -> o_revisit o = false -> r_err (o_res o) = false ->
+  (r_m (o_res o) = IsMember <-> Holds cfg nid d sub (ns, obj, rel)).
+Proof. exact check_exact_clean. Qed.
+(* non-vacuity: an intersection over a traversal, a clean run, both answers *)
+Example C01_exact_clean_nonvacuous :
+  let own := [Byte.x6f] in let par := [Byte.x70] in let edt := [Byte.x65] in let view := [Byte.x76] in
+  let cfg := [ {| ns_name := wDoc; ns_rels := [
+      {| rel_name := own; rel_types := []; rel_rewrite := None |}; {| rel_name := par; rel_types := []; rel_rewrite := None |};
+      {| rel_name := edt; rel_types := []; rel_rewrite := None |};
+      {| rel_name := view; rel_types := []; rel_rewrite := Some {| rw_op := OpAnd; rw_children := [CTuple par own; CComputed edt] |} |} ] |} ] in
+  let c := (1%N, [Byte.x63]) in let r := (1%N, [Byte.x72]) in
+  let row sh o rl s := {| r_shard := sh; r_nid := 1; r_ns := wDoc; r_obj := o; r_rel := rl; r_sub := s |} in
+  let db := {| rows := [row 2%N c par (ISet wDoc r []); row 4%N r own wbob; row 6%N c edt wbob]; maps := []; next := 1 |} in
+  config_nf cfg = true /\
+  (exists o, CheckRelationTuple 100 cfg false 1%N db 100 (fun _ => false) wDoc c view wbob 0 5 = Some o /\
+             o_cut o = false /\ o_revisit o = false /\ r_err (o_res o) = false /\ r_m (o_res o) = IsMember) /\
+  (exists o, CheckRelationTuple 100 cfg false 1%N db 100 (fun _ => false) wDoc r view wbob 0 5 = Some o /\
+             o_cut o = false /\ o_revisit o = false /\ r_err (o_res o) = false /\ r_m (o_res o) = NotMember).
+Proof. vm_compute. split; [reflexivity|]. split; eexists; repeat split. Qed.
+
 (* FULL statement for configurations with rewrites (both directions, with '!'):
      o_cut o = false -> r_err (o_res o) = false -> ref cfg nid d sub gas' [] (ns,obj,rel) = Some (allowed_of (o_res o))
    The "denied => not in the set" direction with rewrites and the '!' cases are NOT proved in Coq; they are decided
